@@ -3,6 +3,7 @@ mod corpus;
 mod e1;
 mod e2;
 mod e2d;
+mod e2n;
 mod e2x;
 mod e3;
 mod e4;
@@ -78,6 +79,7 @@ fn main() {
                 "C11" => e2x::c11(&ctx),
                 "C12" => e2::c12(&ctx),
                 "C15" => e2d::c15(&ctx),
+                "C13" => e2n::c13(&ctx),
                 "C06" => e3::c06(&ctx),
                 "C17" => e3::c17(&ctx),
                 "C08" => e4::c08(&ctx),
